@@ -17,7 +17,7 @@ TECHNIQUE = 'exhaustive enumeration of ordered attribute tuples / tuple pairs x 
 RULE = ('case = (size pattern, ordered tuple t1, ordered tuple t2 or unary argument, operation, value class); tuples: every ordered '
         'non-empty tuple of distinct attributes over 3 (quick) / 4 (thorough) attributes; values: distinct primes per cell (finite), '
         'positive copy for / and log, copy with -inf entries for log-space operations; non-trivial = operands overlap in at '
-        'least one attribute or have different axis orders; distinct = digest of the case.')
+        'least one attribute or have different axis orders; query / overwrite (out=, in-place operators, raw assignment) / query histories on one factor; distinct = digest of the case.')
 LEVEL_TEXT = ('Complete enumeration of operand shapes (ordered attribute tuples, sizes incl. 1, every overlap pattern) for every listed '
               'operation, each result compared cell by cell with a scalar evaluator addressed by attribute name. The operand space of '
               'the property is finite once sizes are fixed, so this decides the property within the size bound.')
